@@ -38,7 +38,23 @@ VARIANTS = {
 }
 
 
+def harness_dir():
+    """the harness crate; with VERIF_REPO=<dir> (a snapshot of the repository used by background
+    runs) a copy whose path dependency points at that directory"""
+    alt = os.environ.get("VERIF_REPO")
+    if not alt or os.path.realpath(alt) == "/repo":
+        return HARN
+    d = os.path.join(VERIF, "work", "harness_alt")
+    os.makedirs(d, exist_ok=True)
+    sh(["rsync", "-a", "--delete", "--exclude", "target", HARN + "/", d + "/"])
+    ct = open(os.path.join(d, "Cargo.toml")).read().replace('path = "/repo"', 'path = "%s"' % alt)
+    open(os.path.join(d, "Cargo.toml"), "w").write(ct)
+    return d
+
+
 def build_harness(variant):
+    global HARN
+    HARN = harness_dir()
     tdir = os.path.join(HARN, "target", variant)
     cmd = ["cargo", "build", "--release", "--offline", "--no-default-features", "--target-dir", tdir] + VARIANTS[variant]
     rc, out = sh(cmd, cwd=HARN, env={"CARGO_NET_OFFLINE": "true"}, timeout=1200)
